@@ -367,7 +367,7 @@ func jsonContainerJobs(q bool, n, u int) []cjob {
 	var js []cjob
 	addj := func(id string, w int, s map[string]string, p map[string]int) {
 		for _, el := range []string{"int", "str"} {
-			ss := map[string]string{"elem": el, "strset": "json"}
+			ss := map[string]string{"elem": el, "strset": "json", "intset": "json"}
 			for k, v := range s {
 				ss[k] = v
 			}
